@@ -812,6 +812,11 @@ class SigDomain(object):
         """
         if isinstance(y, cl.Expression):
             y = y.value
+        y = np.asarray(y)
+        free = ~np.any(self.A[:, :self.n] != 0, axis=0)
+        if np.any(y[free] != 0):
+            # X is unbounded along every coordinate that no constraint mentions.
+            return np.inf
         if self._lift_x is None:
             self._lift_x = cl.Variable(self.A.shape[1])
         objective = y @ self._lift_x[:self.n]
